@@ -16,7 +16,11 @@ type Family struct {
 	Enabled func(m *Model) []Ev
 	TagC03  bool
 	Tags    []string
-	Doc     string
+	// RelayTags: properties a wrong relay in this family is evidence against,
+	// besides C02 and the event's own (the subscriptions family: a notification
+	// owed to a subscription that should have ended with a departure is C06's)
+	RelayTags []string
+	Doc       string
 }
 
 var Families = map[string]*Family{}
@@ -415,6 +419,79 @@ func init() {
 				}
 			}
 			if pending && len(liveSessions(m)) > 0 {
+				evs = append(evs, Ev{K: "tick"})
+			}
+			return evs
+		},
+	})
+}
+
+func init() {
+	// ---- subscription churn: idempotent (un)subscribes, departures of subscribers,
+	// subscriptions after a session switch ----------------------------------------
+	reg(&Family{
+		Name: "subscriptions", NConn: 3, Tags: []string{"C13", "C06", "C12"}, RelayTags: []string{"C13", "C06"},
+		Setup: []Ev{
+			{K: "join", C: 0, X: -1}, {K: "join", C: 1, X: 0}, {K: "join", C: 2, X: 0},
+			{K: "tadd", C: 0, X: 0}, {K: "tadd", C: 0, X: 1}, {K: "eadd", C: 0, X: 0},
+		},
+		Doc: "session {c0,c1,c2}, types T0 and T1, entity e0 of c0; c2 subscribes / unsubscribes (also twice, also to a type only c1 is subscribed to), leaves by closing or by switching to a fresh session where it subscribes to the same numeric type id (unregistered there), registers a type and subscribes again; c1 subscribes to T1; c0 adds / deletes components of both types after each of these",
+		Enabled: func(m *Model) []Ev {
+			var evs []Ev
+			if c := m.Conns[2]; c.Open && c.Sess != nil {
+				if c.Sess == m.Sessions[0] {
+					evs = append(evs, Ev{K: "sub", C: 2, X: 0}, Ev{K: "sub", C: 2, X: 1}, Ev{K: "unsub", C: 2, X: 0}, Ev{K: "unsub", C: 2, X: 1}, Ev{K: "close", C: 2})
+					if len(m.Sessions) < 2 {
+						evs = append(evs, Ev{K: "join", C: 2, X: -1})
+					}
+				} else {
+					// in its own fresh session: the numeric ids of the old session mean nothing here
+					evs = append(evs, Ev{K: "sub", C: 2, X: 1, Raw: true}, Ev{K: "tadd", C: 2, X: 0}, Ev{K: "sub", C: 2, X: 0}, Ev{K: "unsub", C: 2, X: 1, Raw: true})
+					if m.Sessions[0].Live {
+						evs = append(evs, Ev{K: "join", C: 2, X: 0}) // and back
+					}
+				}
+			}
+			if c := m.Conns[1]; c.Open && c.Sess != nil {
+				evs = append(evs, Ev{K: "sub", C: 1, X: 1})
+			}
+			if c := m.Conns[0]; c.Open && c.Sess != nil {
+				evs = append(evs, Ev{K: "cadd", C: 0, X: 0, Y: 0}, Ev{K: "cadd", C: 0, X: 1, Y: 0}, Ev{K: "cdel", C: 0, X: 0, Y: 0}, Ev{K: "cdel", C: 0, X: 1, Y: 0})
+			}
+			return evs
+		},
+	})
+}
+
+func init() {
+	// ---- ownership across a session switch: the same numeric entity id belongs to the
+	// connection in one session and to somebody else in the other ------------------
+	reg(&Family{
+		Name: "own-switch", NConn: 3, TagC03: true, Tags: []string{"C05", "C03", "C11"},
+		Cfg: world.Config{Modules: []string{"vikja", "odal"}},
+		Setup: []Ev{
+			{K: "join", C: 0, X: -1}, {K: "join", C: 1, X: -1}, // S0={c0}, S1={c1}
+			{K: "eadd", C: 0, X: 0}, {K: "eadd", C: 1, X: 1}, // entity 1 in each, c1's persistent
+			{K: "join", C: 2, X: 1}, // a witness in S1
+		},
+		Doc: "S0={c0}, S1={c1,c2}; entity id 1 exists in both, owned by c0 in S0 and by c1 in S1; c0 moves / deletes / attaches an asset to raw id 1, switches to S1 and back, does the same there (now foreign), frames tick; c1 moves its own entity",
+		Enabled: func(m *Model) []Ev {
+			var evs []Ev
+			if c := m.Conns[0]; c.Open && c.Sess != nil {
+				evs = append(evs, Ev{K: "pose", C: 0, X: 1, Raw: true}, Ev{K: "edel", C: 0, X: 1, Raw: true}, Ev{K: "asset", C: 0, X: 1, Y: 1, Raw: true})
+				for _, s := range m.Sessions {
+					if s.Live && s != c.Sess {
+						evs = append(evs, Ev{K: "join", C: 0, X: s.Tok})
+					}
+				}
+				if len(m.Sessions) < 3 {
+					evs = append(evs, Ev{K: "join", C: 0, X: -1}, Ev{K: "eadd", C: 0, X: 0})
+				}
+			}
+			if c := m.Conns[1]; c.Open && c.Sess != nil {
+				evs = append(evs, Ev{K: "pose", C: 1, X: 1, Raw: true})
+			}
+			if anyPending(m) {
 				evs = append(evs, Ev{K: "tick"})
 			}
 			return evs
